@@ -137,6 +137,7 @@ type Sim struct {
 	Trace  []Event
 	hash   uint64 // running hash of (task role, op, chan role)
 	shadow map[any]*shadow
+	atomics map[any]*VC
 	Probes map[string]int
 	pctChange []int
 	nextChanID int
